@@ -8,7 +8,7 @@ from core import Spec, standard_check, qlit, boollit
 # exactly convertible units (IEC prefixes are powers of two): source 'byte'
 EXACT_UNITS = {None: None, 'byte': None, 'Kibyte': (Fraction(1, 2**10), Fraction(0)),
                'Mibyte': (Fraction(1, 2**20), Fraction(0))}
-BIG = 10 ** 30
+BIG = int(Fraction(1e30))      # the binary64 value of INF_BOUND = 1e30
 
 
 def Q(n, d=1):
@@ -84,12 +84,12 @@ class C20(Spec):
             return {'a': [gen() for _ in range(size)]}
         return gen()
 
-    def scaling(self, rng, size, exact=True):
+    def scaling(self, rng, size, exact=True, neg=True):
         """one of: none, scaler, adder, both, ref, ref0, ref+ref0"""
         mode = rng.choice(['none', 'scaler', 'adder', 'both', 'both', 'ref', 'ref0', 'refs', 'refs'])
         sp = {}
         if exact:
-            gs = lambda: self.pow2(rng)                      # noqa
+            gs = lambda: self.pow2(rng, neg)                 # noqa
             ga = lambda: self.dy(rng)                        # noqa
         else:
             gs = lambda: Q(rng.choice([3, -7, 5, 3, 10]), rng.choice([1, 10, 3]))     # noqa
@@ -200,10 +200,13 @@ class C20(Spec):
                 if t < 0.25:
                     return Q(-2 * BIG if is_lower else 2 * BIG)
                 if t < 0.3:
+                    huge.append(1)
                     return Q(BIG if is_lower else -BIG)       # the "wrong" infinity is an ordinary number
                 return self.dy(rng, -16, 16)
+            huge = []
             val = None if kind < 0.1 else self.quantity(rng, size, gv)
-            adder = None if rng.random() < 0.3 else self.quantity(rng, size, lambda: self.dy(rng))
+            # adding a small adder to 1e30 is not exact in binary64: no adder in that case
+            adder = None if (huge or rng.random() < 0.3) else self.quantity(rng, size, lambda: self.dy(rng))
             scaler = None if rng.random() < 0.3 else self.quantity(rng, size, lambda: self.pow2(rng))
             cases.append({'kind': 'bound', 'cls': 'scale_bound', 'val': val, 'adder': adder, 'scaler': scaler,
                           'size': size, 'is_lower': is_lower})
@@ -242,9 +245,9 @@ class C20(Spec):
              'A': [[Q(v) for v in r] for r in A], 'b': [Q(v) for v in b], 'x': [Q(v) for v in x],
              'c': [Q(rng.randint(-3, 3)), Q(rng.randint(1, 3))], 'd': Q(0), 'xnew': [Q(0), Q(0)]}
         for key in ('s1', 's2'):
-            dv = self.scaling(rng, 2)
+            dv = self.scaling(rng, 2, neg=False)
             dv.update({'lower': Q(-64), 'upper': Q(64), 'units': None})
-            con = self.scaling(rng, 2)
+            con = self.scaling(rng, 2, neg=False)
             con.update({'equals': {'a': [Q(v) for v in y]}, 'units': None})
             obj = self.scaling(rng, 1)
             for k in ('scaler', 'ref'):       # keep the objective a minimisation: positive slope
